@@ -1,11 +1,14 @@
 """C03 -- positions drawn in/on a region lie in it and are uniformly distributed.
 
 Two workload families, chosen by the first tape draw:
-* fixed regions (13 in 17 runs): one region (primitive or A.intersect/union/difference(B)) with tape-chosen
+* fixed regions (13 in 21 runs): one region (primitive or A.intersect/union/difference(B)) with tape-chosen
   parameters and a batch of draws through the RNG seam.  Oracles: independent membership predicate
   (simverif.regionref), exact law by enumeration of every RNG outcome for discrete regions, seeded chi-square
   against a quasi-Monte-Carlo integral of the membership predicate for continuous ones, adversarial scripted draws.
-* lazy regions across scenes (4 in 17 runs, simverif.checks.c03lazy): a compiled Scenic program places a
+* footprint history / off-centre meshes (4 in 21 runs, simverif.checks.c03hist): one PolygonalFootprintRegion composed
+  successively with box volumes of very different height and altitude; point set / grid x mesh volumes that are not
+  centred on their `position` (results of mesh booleans, centerMesh=False).
+* lazy regions across scenes (4 in 21 runs, simverif.checks.c03lazy): a compiled Scenic program places a
   Point / Object in/on a region with RANDOM parameters; several consecutive scenes of the same compiled scenario
   (two scenarios interleaved) are judged against the region rebuilt from each scene's own parameter values --
   membership per scene, exact law per parameter value for point set / grid x region.
@@ -34,10 +37,12 @@ RULE = (
     "or its surface, voxelised mesh, polygon with holes / multipolygon, circle, sector, rectangle, polyline, 3D path, point set, "
     "grid; random size, offset, rotation, height) or a pairwise intersect/union/difference with a second region placed to "
     "overlap it (via A.op(B), or 1 in 4 via the generic Intersection/Union/DifferenceRegion classes); N seeded draws + scripted "
-    "adversarial draws (+ the exhaustive RNG tree for discrete regions); OR (4 in 17 runs) one or two compiled Scenic programs "
+    "adversarial draws (+ the exhaustive RNG tree for discrete regions); OR (4 in 21 runs) one or two compiled Scenic programs "
     "placing a Point/Object in/on a region whose heading / position / size / radius / height / angle are Range, Uniform or "
     "DiscreteRange values (primitive, point set or grid x region, intersect/union/difference), 3-12 consecutive scenes per "
-    "scenario, the two scenarios interleaved, + the whole RNG tree of scenario.generate for discrete programs; distinct = digest "
+    "scenario, the two scenarios interleaved, + the whole RNG tree of "
+    "scenario.generate for discrete programs; OR (4 in 21 runs) one footprint region composed in turn with 2-4 boxes of very different "
+    "height/altitude, or a point set / grid far from the origin x an off-centre mesh volume (boolean result, centerMesh=False); distinct = digest "
     "of the region description / program text; non-trivial = composition, or rotated, or at non-zero height, or a lazy program")
 COMPONENTS = {
     "real": ["scenic.core.regions samplers (uniformPointInner of every class, generic intersection/union/difference samplers, "
@@ -350,7 +355,7 @@ def uniformity(ref, P, info, stats, extra):
         return []
     sel = np.zeros(len(Rp), bool)
     sel[::11] = True  # 11 is coprime to every Halton base in use
-    cells = rr.KDCells(Rp[sel], depth=5 if len(P) >= 2500 else 4)
+    cells = rr.KDCells(Rp[sel], depth=5 if len(P) >= 2500 else 4 if len(P) >= 600 else 3)
     est = Rp[~sel]
     q = np.bincount(cells.index(est), minlength=cells.ncell) / len(est)
     se = np.sqrt(q * (1 - q) / len(est))
@@ -457,10 +462,11 @@ def run(tape):
     import scenic.core.regions as R
     N, Nslow = NDRAW[TIER]
     stats, violations, extra = {}, [], {}
-    w = tape.draw(17, "op")  # 0-3 primitive, 4-6 intersect, 7-9 union, 10-12 difference, 13-16 lazy regions across scenes
+    # 0-3 primitive, 4-6 intersect, 7-9 union, 10-12 difference, 13-16 lazy regions across scenes, 17-20 footprint history / off-centre meshes
+    w = tape.draw(21, "op")
     if w >= 13:
-        from . import c03lazy
-        return c03lazy.run_lazy(tape, sys.modules[__name__])
+        from . import c03hist, c03lazy
+        return (c03hist.run_history if w >= 17 else c03lazy.run_lazy)(tape, sys.modules[__name__])
     op = [None, "intersect", "union", "difference"][(w - 1) // 3 if w > 3 else 0]
     more = ["pointset"] * 3 if op == "intersect" else []  # the point-set intersection sampler is a mechanism of its own
     kinds = [tape.choice([k for k in KINDS if k != "grid" or op != "union"] + more, "kindA")]
